@@ -241,7 +241,18 @@ def run(pid: str, tier: str, seed: int, selftest=False, replay=None) -> int:
         # 5-node enumeration): what the later setup may rely on depends on what each arm / the loop body leaves behind
         around = [("I1",) + tuple(t) + (post,) for t in small3 if "C" in t or "S" in t for post in ("I1", "I2")]
         rep.extra["configured_around_regions_with_calls"] = len(around)
-        progs = list(progs) + deep + sandwiches + around
+        # two loops next to each other, each re-configuring the accelerator from the same outer values (what a pass keeps from rotating /
+        # hoisting the first loop meets the second one in the same function)
+        bodies = [("I1",), ("I2",), ("I3",)]
+        twoloops = [pre + ("F",) + a + (")", "F") + b + (")",) + post for pre in ((), ("I1",)) for a in bodies for b in bodies for post in ((), ("I2",))]
+        # a configuration inside a two-deep nest that depends on BOTH loop variables (moved / copied once per loop level)
+        nests = [pre + ("F", "F") + body + (")",) + mid + (")",) + post for pre in ((), ("I1",)) for body in (("I5",), ("I3",))
+                 for mid in ((), ("S",)) for post in ((), ("I2",))]
+        # two accelerators at two loop levels, the inner configuration computed from both loop variables (the outer one is an input of
+        # the outer configuration too)
+        nests += [pre + ("F", a, "F", b, ")", ")") + post for pre in ((), ("I1",)) for a, b in (("I3", "J5"), ("J3", "I5"), ("I3", "J3"))
+                  for post in ((), ("J1",))]
+        progs = list(progs) + deep + sandwiches + around + twoloops + nests
         n_small = 0
         for toks in progs:
             if pid == "C06" and not one_setup_per_nest(toks):
